@@ -313,8 +313,10 @@ func c11c(c *Ctx, r *Report, st *Staged) {
 					alt = a
 				}
 			})
+			var atoms []string
 			if alt != nil {
 				filt = alt.CondPath
+				atoms = append(atoms, alt.CondNNF...)
 				for {
 					var inner *SAlt
 					walkShape(alt.Then, func(x Shape) {
@@ -326,22 +328,20 @@ func c11c(c *Ctx, r *Report, st *Staged) {
 						break
 					}
 					filt = "(" + filt + ") && (" + inner.CondPath + ")"
+					atoms = append(atoms, inner.CondNNF...)
 					alt = inner
 				}
 			}
 			// exactly: IDTyp == TERMID ∧ ¬TestPrefix(Name) of the identifier whose constant is emitted, emitting arm = then
+			// (conjuncts with negation pushed inward: `!(IDTyp != TERMID || TestPrefix(Name))` is the same filter)
 			filtOK := false
 			if alt != nil && nameH != nil {
 				base := strings.TrimSuffix(nameH.Path, ".Name")
-				want := map[string]bool{base + ".IDTyp == 1": false, "!Parser.TestPrefix(" + base + ".Name)": false}
-				conj := splitTopLevelAnd(filt)
+				want := map[string]bool{"(" + base + ".IDTyp == 1)": false, "!(Parser.TestPrefix(" + base + ".Name))": false}
 				extra := false
-				for _, cj := range conj {
-					for len(cj) >= 2 && cj[0] == '(' && matchingParen(cj, 0) == len(cj)-1 {
-						cj = strings.TrimSpace(cj[1 : len(cj)-1])
-					}
-					if _, ok := want[cj]; ok {
-						want[cj] = true
+				for _, a := range atoms {
+					if _, ok := want[a]; ok {
+						want[a] = true
 					} else {
 						extra = true
 					}
@@ -351,7 +351,7 @@ func c11c(c *Ctx, r *Report, st *Staged) {
 					all = all && v
 				}
 				emitsThen := strings.Contains(shapeString(alt.Then), "const ") && !strings.Contains(shapeString(alt.Else), "const ")
-				filtOK = all && !extra && len(conj) == 2 && emitsThen
+				filtOK = all && !extra && len(atoms) == 2 && emitsThen
 			}
 			r.Check(filtOK, clause, "R1 PROVENANCE", b.name+".buildConstPart/filter", c.pos(pos),
 				"constants are emitted exactly for named terminals (IDTyp == TERMID and not a character literal's temporary name)", "the constant block is not emitted exactly when `IDTyp == TERMID && !TestPrefix(Name)` holds for the identifier (condition `"+filt+"`)")
